@@ -26,7 +26,7 @@ from pyvc import run  # noqa: E402
 
 def norm(name):
     """obligation name without line numbers and path traces"""
-    return re.sub(r'@[^:]*', '', name)
+    return re.sub(r'#\d+$', '', re.sub(r'@[^:#]*', '', name))
 
 
 def load_known():
